@@ -255,7 +255,50 @@ ENVELOPE = [
 ]
 
 KINDS = ("none", "in_trunc", "in_eio", "in_missing", "out_err", "refine", "timeout",
-         "worker", "git", "opt_unknown", "opt_invalid", "opt_inconsistent", "envelope")
+         "worker", "git", "opt_unknown", "opt_invalid", "opt_inconsistent", "envelope",
+         "in_corrupt")
+
+# a damaged stored input: one numeric field of the geqdsk text replaced by what equilibrium
+# codes and failing disks put there (the property asks for raise-or-valid, nothing more)
+CORRUPTIONS = ("NaN", "Infinity", "****************", "flip_digit", "drop_char", "-NaN",
+               "0.000000000E+00")
+GEQDSK_BLOCKS = ("header", "fpol", "pres", "ffprime", "pprime", "psi", "qpsi", "limiter")
+
+
+def corrupt_geqdsk(text, block, what, frac):
+    """Replace one 16-character numeric field inside the named block."""
+    import re
+
+    lines = text.split("\n")
+    n = len(re.findall(r"\d+", lines[0])[-2:]) and int(lines[0].split()[-2])
+    ny = int(lines[0].split()[-1])
+    body = "\n".join(lines[1:])
+    fields = [(m.start(), m.end()) for m in
+              re.finditer(r"[ +\-]?\d+\.\d+[Ee][+\-]\d\d", body)]
+    sizes = [("header", 20), ("fpol", n), ("pres", n), ("ffprime", n), ("pprime", n),
+             ("psi", n * ny), ("qpsi", n)]
+    start = 0
+    ranges = {}
+    for name, size in sizes:
+        ranges[name] = (start, start + size)
+        start += size
+    ranges["limiter"] = (start, len(fields))
+    lo, hi = ranges[block]
+    hi = min(hi, len(fields))
+    if hi <= lo:
+        return text
+    k = lo + int(frac * (hi - lo))
+    a, b = fields[min(k, len(fields) - 1)]
+    old = body[a:b]
+    if what == "flip_digit":
+        i = next(j for j, ch in enumerate(old) if ch.isdigit())
+        new = old[:i] + ("7" if old[i] != "7" else "3") + old[i + 1:]
+    elif what == "drop_char":
+        new = old[:-1]
+    else:
+        new = what.rjust(len(old))[-len(old):] if len(what) <= len(old) else what
+    return lines[0] + "\n" + body[:a] + new + body[b:]
+
 
 
 def torpex_case(rng, key):
@@ -283,7 +326,9 @@ def torpex_case(rng, key):
 def make_case(rng, key, kind=None, entry=None, geom=None):
     kind = kind or rng.choice(KINDS)
     if entry is None:
-        if kind in ("in_trunc", "in_eio", "in_missing", "opt_unknown"):
+        if kind == "in_corrupt":
+            entry = "geqdsk"
+        elif kind in ("in_trunc", "in_eio", "in_missing", "opt_unknown"):
             entry = rng.choice(("geqdsk", "geqdsk", "circular"))
         elif kind == "opt_inconsistent":
             entry = rng.choice(("api-tok", "api-circ"))
@@ -301,6 +346,9 @@ def make_case(rng, key, kind=None, entry=None, geom=None):
     if kind == "in_trunc":
         f.update({"which": rng.choice(("geqdsk", "yaml")) if entry == "geqdsk" else "yaml",
                   "frac": rng.random(), "mode": rng.choice(("line", "midnumber", "byte"))})
+    elif kind == "in_corrupt":
+        f.update({"block": rng.choice(GEQDSK_BLOCKS), "what": rng.choice(CORRUPTIONS),
+                  "frac": rng.random()})
     elif kind == "in_eio":
         f.update({"which": "geqdsk" if entry == "geqdsk" else "yaml",
                   "nth": rng.choice((1, 2, 3, 5, 20, 200, 800, 1200))})
@@ -427,6 +475,10 @@ def run_case(case, keep_log=False):
                 with workloads.env_seams():
                     files["in.geqdsk"] = workloads.geqdsk_text(arrs)
             fault = {}
+            if kind == "in_corrupt":
+                files["in.geqdsk"] = corrupt_geqdsk(files["in.geqdsk"], f["block"],
+                                                    f["what"], f["frac"])
+                counters["in_corrupt_fired"] = 1
             if kind in ("in_trunc", "in_eio", "in_missing"):
                 name = "in.geqdsk" if f["which"] == "geqdsk" else "in.yaml"
                 fault = {"kind": kind, "path": name}
@@ -600,8 +652,12 @@ def _inconsistent(case, options, eq, BoutMesh):
 def classify(case, res, problems, counters):
     kind = case["kind"]
     if res["outcome"] == "raised" and res["exc"] == "Runaway":
-        counters["undecided_runaway"] = 1
-        return None
+        # two to three orders of magnitude more ODE work than any normal generation of
+        # these small workloads, with no deadline in force: for the user this is a hang
+        counters["runaway"] = 1
+        return {"class": "HUNG:RUNAWAY",
+                "detail": f"generation neither returned nor raised under fault kind {kind}: "
+                          f"{res.get('msg')}"}
     if res["outcome"] == "hung":
         return {"class": "HUNG", "detail": f"generation neither returned nor raised "
                                            f"({res['exc']}) under fault kind {kind}"}
